@@ -197,9 +197,14 @@ func (e *env) compactStore(meta bool) (int, error) {
 	return n, nil
 }
 
-// fileCounts reports level-0/level-1 file counts of the forward family (for branch statistics).
-func (e *env) fileCounts(family string) (int, int) {
-	is, ok := kv.GetStoreManager().GetStoreByName(e.indexDir)
+// fileCounts reports level-0/level-1 file counts of a family of the index store (meta=false) or of
+// the metadata store.
+func (e *env) fileCounts(meta bool, family string) (int, int) {
+	name := e.indexDir
+	if meta {
+		name = filepath.Join(e.metaDir, "kv")
+	}
+	is, ok := kv.GetStoreManager().GetStoreByName(name)
 	if !ok {
 		return 0, 0
 	}
